@@ -1131,6 +1131,10 @@ class World(BaseWorld):
             calls.append((".value", lambda sol: A.obj.value(sol)))
         sols = [("dict", dict(x))]
         vs = A.shadow.variables() | {l for k in keys for l in k}
+        if vs and vs != set(x):
+            # an assignment of exactly the model's variables (nothing else in the dict), in reversed label order
+            sols.append(("minimal dict", {l: x[l] for l in sorted(vs, key=sort_key, reverse=True)}))
+            self.probe("minimal_dict_assignment")
         if op.get("seq") and all(isinstance(l, int) and l >= 0 for l in vs):
             n = max(vs, default=-1) + 1
             dom0 = 0 if self.kind == BOOL else 1
@@ -1211,6 +1215,10 @@ def dyadic(p):
             return None
         K = max(K, d.bit_length() - 1)
         M = max(M, abs(v))
+    if K > 40:
+        # a full-mantissa double (e.g. a correctly rounded quotient such as 0.1): any further float sum with it rounds, and the
+        # library may add the raw terms of an operand in an order the squashed reference polynomial does not show
+        return None
     return M, K
 
 
